@@ -1,5 +1,5 @@
 CONSTANTS P = 83  A = 1  B = 7  Gx = 0  Gy = 16  N = 79
-          SignZ = {1, 79}  VerZ = {1, 80}  VerQ = {2, 3, 40, 79}  RecZ = {1, 79}
+          SignZ = {1, 79}  VerZ = {1, 80}  VerQ = {2, 79}  RecZ = {1, 79}
 SPECIFICATION Spec
 INVARIANT ReturnedVerifies
 CHECK_DEADLOCK FALSE
